@@ -19,6 +19,9 @@ import (
 
 var verifDir = "/verif"
 
+// checkedProp: the property of the running `check` (empty for `vc`)
+var checkedProp string
+
 func main() {
 	if len(os.Args) < 2 {
 		fmt.Fprintln(os.Stderr, "usage: govc check <Cxx> [--tier quick|thorough] | vc <funcpattern> | list")
@@ -347,6 +350,16 @@ func (e *Engine) runTargets(ts []target, mode string) *checkResult {
 				o.Props = fx.con.Props
 			}
 		}
+		if checkedProp != "" {
+			// clauses restricted to some properties (clauseprops) are not part of the other properties' checks
+			var keep []*Obligation
+			for _, o := range fx.obls {
+				if !o.OnlyProps || containsStr(o.Props, checkedProp) {
+					keep = append(keep, o)
+				}
+			}
+			fx.obls = keep
+		}
 		if t.sweep && t.con != nil && !containsStr(t.con.Props, t.sweepProp) {
 			// a function swept for its safety obligations: the postconditions of its own contract belong to the
 			// properties that contract names, not to the sweeping property
@@ -664,6 +677,7 @@ func cmdCheck(args []string) int {
 		fmt.Fprintln(os.Stderr, "govc: cannot load /repo:", err)
 		return 2
 	}
+	checkedProp = prop
 	ts, problems := e.targetsFor(prop)
 	for _, er := range e.errors {
 		problems = append(problems, er)
